@@ -13,7 +13,7 @@ Theorem classify_called_iff g n :
 Proof.
   split.
   - intros H. destruct g as [l|]; [|discriminate].
-    destruct l as [|a [|b [|c l]]]; try discriminate.
+    destruct l as [|a [|b [|c l]]]; try discriminate; try (destruct a; discriminate).
     destruct a as [a|], b as [b|]; try discriminate.
     cbn [classify] in H.
     destruct (a <=? 1) eqn:Ea; destruct (b <=? 1) eqn:Eb; cbn [andb] in H; try discriminate.
@@ -27,7 +27,7 @@ Theorem classify_multiallelic_iff g :
 Proof.
   split.
   - intros H. destruct g as [l|]; [|discriminate].
-    destruct l as [|a [|b [|c l]]]; try discriminate.
+    destruct l as [|a [|b [|c l]]]; try discriminate; try (destruct a; discriminate).
     destruct a as [a|], b as [b|]; try discriminate.
     cbn [classify] in H. exists a, b. split; [reflexivity|].
     destruct (a <=? 1) eqn:Ea; destruct (b <=? 1) eqn:Eb; cbn [andb] in H; try discriminate.
@@ -40,28 +40,35 @@ Proof.
 Qed.
 
 Theorem classify_missing_iff g :
-  classify g = GMissing <-> g = None \/ exists a b, g = Some [a; b] /\ (a = None \/ b = None).
+  classify g = GMissing <-> g = None \/ g = Some [None] \/ exists a b, g = Some [a; b] /\ (a = None \/ b = None).
 Proof.
   split.
   - intros H. destruct g as [l|]; [|now left]. right.
     destruct l as [|a [|b [|c l]]]; try discriminate.
-    exists a, b. split; [reflexivity|].
-    destruct a as [a|], b as [b|]; auto.
-    cbn [classify] in H. destruct ((a <=? 1) && (b <=? 1)); discriminate.
-  - intros [->|(a & b & -> & [->| ->])]; [reflexivity|reflexivity|].
+    + destruct a as [a|]; [discriminate|now left].
+    + right. exists a, b. split; [reflexivity|].
+      destruct a as [a|], b as [b|]; auto.
+      cbn [classify] in H. destruct ((a <=? 1) && (b <=? 1)); discriminate.
+    + destruct a as [a|]; discriminate.
+  - intros [->|[->|(a & b & -> & [->| ->])]]; [reflexivity|reflexivity|reflexivity|].
     destruct a; reflexivity.
 Qed.
 
 Theorem classify_ploidy_iff g :
-  classify g = GPloidyErr <-> exists l, g = Some l /\ length l <> 2.
+  classify g = GPloidyErr <-> exists l, g = Some l /\ length l <> 2 /\ l <> [None].
 Proof.
   split.
   - intros H. destruct g as [l|]; [|discriminate]. exists l. split; [reflexivity|].
-    destruct l as [|a [|b [|c l]]]; cbn [length]; try lia.
-    exfalso. destruct a as [a|], b as [b|]; try discriminate.
-    cbn [classify] in H. destruct ((a <=? 1) && (b <=? 1)); discriminate.
-  - intros (l & -> & Hl). destruct l as [|a [|b [|c l]]]; try reflexivity.
-    cbn [length] in Hl. lia.
+    destruct l as [|a [|b [|c l]]]; cbn [length].
+    + split; [lia|discriminate].
+    + split; [lia|]. destruct a as [a|]; [discriminate|discriminate].
+    + exfalso. destruct a as [a|], b as [b|]; try discriminate.
+      cbn [classify] in H. destruct ((a <=? 1) && (b <=? 1)); discriminate.
+    + split; [lia|discriminate].
+  - intros (l & -> & Hl & Hn). destruct l as [|a [|b [|c l]]]; try reflexivity.
+    + destruct a as [a|]; [reflexivity|congruence].
+    + cbn [length] in Hl. lia.
+    + destruct a as [a|]; reflexivity.
 Qed.
 
 Theorem classify_called_range g n : classify g = GCalled n -> n <= 2.
